@@ -57,6 +57,74 @@ def macro_literal(toks, tpl_only):
     return "".join(out)
 
 
+def hook_parts(toks, fmt_flags="?"):
+    """The expansion of a literal's parts written out by hand with every hook call dispatched through
+    its *trait* (`__PrivateFmtHook for Part`, `__PrivateKeyHook for Key`) instead of the inherent
+    const fns the macros resolve to: level A is the same template."""
+    out = []
+    text = ""
+    P = "emit::template::Part"
+    key_default = lambda k: "<Key as __PrivateKeyHook>::__private_key_as_default(Key(%s))" % rust_str(k)
+    key_as = lambda ident, name: "<Key as __PrivateKeyHook>::__private_key_as(Key(%s), %s)" % (rust_str(ident), name)
+    fmt_default = lambda hole: "<%s as __PrivateFmtHook>::__private_fmt_as_default(%s::hole_str(%s))" % (P, P, hole)
+    fmt_as = lambda hole, flags: ("<%s as __PrivateFmtHook>::__private_fmt_as(%s::hole_str(%s), emit::template::Formatter::new(|v, f| "
+                                  "core::write!(f, \"{:%s}\", v)))" % (P, P, hole, flags))
+    # `#[emit::fmt("")]`: the format string is "{}"
+    fmt_as_plain = lambda hole: ("<%s as __PrivateFmtHook>::__private_fmt_as(%s::hole_str(%s), emit::template::Formatter::new(|v, f| "
+                                 "core::write!(f, \"{}\", v)))" % (P, P, hole))
+    def flush():
+        nonlocal text
+        if text:
+            out.append("%s::text(%s)" % (P, rust_str(text)))
+            text = ""
+    for t in toks:
+        if t["k"] == "c":
+            # the macros emit one text part per maximal run of text
+            text += t["c"]
+        elif t["k"] == "eo":
+            text += "{"
+        elif t["k"] == "ec":
+            text += "}"
+        else:
+            flush()
+            f = t["form"]
+            if f == "id":
+                out.append(fmt_default(key_default("x")))
+            elif f == "expr":
+                out.append(fmt_default(key_default("y")))
+            elif f == "fmt":
+                out.append(fmt_as(key_default("x2"), fmt_flags))
+            elif f == "key":
+                out.append(fmt_default(key_as("z", rust_str("k \u00e9"))))
+            elif f == "keyname":
+                out.append(fmt_default(key_as("z2", rust_str("k2"))))
+            elif f == "keyexpr":
+                out.append(fmt_default(key_as("z3", "KEY3")))
+            elif f == "fmtnamed":
+                out.append(fmt_as(key_default("x3"), fmt_flags))
+            elif f == "fmtsite":
+                out.append(fmt_as(key_default("v"), fmt_flags) if fmt_flags else fmt_as_plain(key_default("v")))
+            else:
+                raise vlib.ToolError("unknown token %r" % (t,))
+    flush()
+    return "[%s]" % ", ".join(out)
+
+
+def hook_parts_count(toks):
+    """one item per part hook_parts() produces"""
+    run = False
+    for t in toks:
+        if t["k"] == "h":
+            run = False
+            yield 1
+        elif not run:
+            run = True
+            yield 1
+
+
+HOOK_PROPS = '[("x", "X0"), ("y", "Y1"), ("x2", "Q"), ("k \u00e9", "Z2"), ("k2", "Z3"), ("k3", "Z4"), ("x3", "R")]'
+
+
 def generate_macro_sites(lines, dest, fmt_lines=()):
     """One tpl!/evt!/emit! call site per MACRO line; returns True when the file changed."""
     sig = ["<E: emit::Emitter, F: emit::Filter, C: emit::Ctxt, T: emit::Clock, R: emit::Rng>(",
@@ -65,7 +133,9 @@ def generate_macro_sites(lines, dest, fmt_lines=()):
            "    last: &dyn Fn() -> Option<(emit::Template<'static>, String)>,",
            ") {"]
     o = ["// @generated by lib/checks/c16.py from the MACRO lines of spec/MCTemplate.tla - do not edit",
-         "const KEY3: &str = \"k3\";"]
+         "const KEY3: &str = \"k3\";",
+         "#[allow(unused_imports)]",
+         "use emit::__private::{Key, __PrivateFmtHook, __PrivateKeyHook};"]
     for i, m in enumerate(lines):
         lit_t = rust_str(macro_literal(m["toks"], True))
         lit_e = rust_str(macro_literal(m["toks"], False))
@@ -80,6 +150,9 @@ def generate_macro_sites(lines, dest, fmt_lines=()):
         o.append("    let (t, m) = last().expect(\"emit! did not reach the emitter\");")
         o.append("    chk(%d, \"emit\", &t, Some(m));" % i)
         o.append("    chk(%d, \"format\", &emit::tpl!(%s), Some(emit::format!(%s)));" % (i, lit_t, lit_e))
+        o.append("    let hp: [emit::template::Part; %d] = %s;" % (sum(1 for _ in hook_parts_count(m["toks"])), hook_parts(m["toks"])))
+        o.append("    let ht = emit::Template::new_ref(&hp);")
+        o.append("    chk(%d, \"hooks\", &ht, Some(ht.render(%s).to_string()));" % (i, HOOK_PROPS))
         o.append("}")
     # format-flag sites: `[{#[emit::fmt("FLAGS")] v}]`; the std oracle is format! of the same flags
     fsig = list(sig)
@@ -102,7 +175,11 @@ def generate_macro_sites(lines, dest, fmt_lines=()):
         o.append("    let (t, m) = last().expect(\"emit! did not reach the emitter\");")
         o.append("    chk(%d, \"emit\", &t, m, oracle.clone());" % i)
         o.append("    let t = emit::tpl!(%s);" % lit)
-        o.append("    chk(%d, \"format\", &t, emit::format!(%s), oracle);" % (i, lit))
+        o.append("    chk(%d, \"format\", &t, emit::format!(%s), oracle.clone());" % (i, lit))
+        o.append("    let hp: [emit::template::Part; 3] = %s;" % hook_parts(
+            [{"k": "c", "c": "["}, {"k": "h", "form": "fmtsite"}, {"k": "c", "c": "]"}], flags))
+        o.append("    let ht = emit::Template::new_ref(&hp);")
+        o.append("    chk(%d, \"hooks\", &ht, ht.render((\"v\", v)).to_string(), oracle);" % i)
         o.append("}")
     o.append("pub fn run" + sig[0])
     o += sig[1:]
@@ -132,7 +209,7 @@ def run_macros(ctx, tlc_out):
         raise vlib.ToolError("TLC printed no macro literals")
     lines = vlib.read_ndjson(mpath)
     forms = [json.loads(x) for x in vlib.iter_printed(tlc_out, "MACROFORMS")]
-    if not forms or sorted(forms[0]) != ["emit", "evt", "format", "tpl"]:
+    if not forms or sorted(forms[0]) != ["emit", "evt", "format", "hooks", "tpl"]:
         raise vlib.ToolError("the macro forms of the specification and of the generator differ: %r" % (forms[:1],))
     fpath = os.path.join(ctx.out, "fmtsites.ndjson")
     if vlib.extract_printed(tlc_out, "FMTSITE", fpath) == 0:
@@ -172,7 +249,7 @@ def run(ctx):
     pl = []
     with open(cases, "w") as fo:
         for c in cfgs:
-            r = ctx.tlc("MCTemplate", c, workers=8, timeout=3000, xmx="8g")
+            r = ctx.tlc("MCTemplate", c, workers=6, timeout=3000, xmx="8g")
             if r.violated:
                 ctx.spec_violation(r, "Template.tla: %s violated by the transcription of Template::eq (%s)" % (r.violated, c))
                 return
@@ -233,6 +310,11 @@ def run(ctx):
         crep = json.load(open(crep_path))
         ctx.cov["traces_validated_against_impl"] += crep["checks"]
         ctx.cov["channel_checks"] = crep["checks"]
+        obs = crep.get("extra", {}).get("debug_of_escapable_text", {})
+        ctx.cov["debug_of_escapable_text"] = obs
+        if obs.get("quoted-not-escaped") or obs.get("other"):
+            vlib.log("  OBSERVATION (don't-care in the spec, Template.tla DebugDontCare): Debug of a Render / Template whose text has "
+                     "a quote or a backslash: %s" % json.dumps(obs))
         rep["mismatches"] += crep["mismatches"]
         rep["total_mismatches"] += crep["total_mismatches"]
     if not isinstance(mcase, dict) or "macro" in mcase:
